@@ -231,6 +231,14 @@ def node_step(kind: int, k0: int, k1: int, k2: int, x: int, v0: int, v1: int, v2
     spec, ref = node(kind, kids, extra)
     tgt = [x, x + 1, x - 1] if kind == 6 else x
     ok = _compare(spec, ref, tgt, glog, rlog, kind=kind, outs=outs)
+    if ok:
+        # the SAME spec object again, on another target: nothing may be remembered from the first evaluation
+        del glog[:]
+        del rlog[:]
+        n_before = len(extra['factory'])
+        tgt2 = [x + 7] if kind == 6 else x + 7
+        ok = _compare(spec, ref, tgt2, glog, rlog, kind=kind, outs=outs, second=True)
+        del extra['factory'][n_before:]
     if ok and kind == 10 and extra['factory'] not in ([], ['g', 'r']):
         return fail(why='default_factory call count', calls=extra['factory'])
     return ok
